@@ -94,6 +94,23 @@ theorem install_fallback_legacy_counterexample :
   refine ⟨by decide, by decide, ?_⟩
   intro h; exact h rfl
 
+/-- **install_dirs_truthful** — the Python path of directory creation (`_install_dirs`: dodir, keepdir and the
+directories of recursive installs): whatever the os-level steps do, the outcome is success exactly when every requested
+directory was made (and, with `diroptions`, given its attributes); a failure carries a non-zero code; nothing after
+the first failing directory is attempted.  With `status_truthful` this makes the reply of such a request truthful
+about the directories on disk. -/
+theorem install_dirs_truthful (w : Bool) (steps : List DirStep) :
+    succeeded (installDirsPy w steps) = dirsDone w steps ∧ CodeOk (installDirsPy w steps) ∧
+    ∀ (pre post1 post2 : List DirStep) (s : DirStep), dirsDone w [s] = false →
+      installDirsPy w (pre ++ s :: post1) = installDirsPy w (pre ++ s :: post2) :=
+  ⟨installDirsPy_succeeded w steps, installDirsPy_codeOk w steps,
+    fun pre post1 post2 s hs => installDirsPy_stops w pre s post1 post2 hs⟩
+
+example : succeeded (installDirsPy true [⟨"'/img/usr'".toList, none, none⟩,
+    ⟨"'/img/usr/lib/foo'".toList, some "Not a directory".toList, none⟩]) = false ∧
+    dirsDone true [⟨"'/img/usr'".toList, none, none⟩, ⟨"'/img/x'".toList, none, some "Operation not permitted".toList⟩] = false ∧
+    dirsDone false [⟨"'/img/x'".toList, none, some "ignored".toList⟩] = true := by decide
+
 /-- **reply_read_exactly_partial** — the daemon's single `read` (no `-r`) consumes exactly the reply and its
 newline, sees the truthful status, and leaves the pipe at the next reply — provided the message does not end in
 a dangling backslash (`MsgClosed`).
